@@ -664,6 +664,9 @@ func createListeners(addrs []string, opts ...Option) ([]*listener, *Options, err
 		}
 		ln, err := initListener(proto, addr, options)
 		if err != nil {
+			for _, l := range listeners[:i] {
+				l.close()
+			}
 			return nil, nil, err
 		}
 		listeners[i] = ln
